@@ -82,6 +82,16 @@ def gen_geom(rng):
             lo[j] = xb[j]; hi[j] = xb[j]; nact += 1                   # exactly degenerate side (a fixed variable)
             if rng.random() < 0.6:
                 g[j] = 0.0 if rng.random() < 0.5 else 1e-16 * rng.normal()
+    if r2.random() < 0.15:
+        # "no bound" written as +-inf instead of +-1e20 (both are accepted by solve and by the routines)
+        lo = np.where(lo <= -1e20, -np.inf, lo)
+        hi = np.where(hi >= 1e20, np.inf, hi)
+        for j in range(n):
+            if r2.random() < 0.3:
+                if r2.random() < 0.5:
+                    lo[j] = -np.inf
+                else:
+                    hi[j] = np.inf
     nact += int(np.sum((xb - lo < Delta) | (hi - xb < Delta)))
     return xb, c, g, lo, hi, Delta, nact
 
@@ -327,11 +337,39 @@ def install_tr_step_monitor():
     engine.BINDINGS["Controller.trust_region_step"] = engine.instrument_method(Controller, "trust_region_step", mk)
 
 
+def add_situ_options(cfg, seed, i):
+    """Options of the shared table on top of the in-situ modes (own stream: the modes themselves stay what they were): growing initial
+    sets with and without their safety step, restarts, seldom-used keys - the regularised step is handed to the main loop from several
+    places, each guarded on its own."""
+    g = engine.rng_for(seed, NUM, i, 8)
+    up = cfg["user_params"]
+    n = cfg["prob"]["n"]
+    if cfg.get("reg") and n >= 2 and g.random() < 0.5:
+        up["growing.ndirs_initial"] = int(g.integers(1, n))
+        if g.random() < 0.5:
+            up["growing.safety.do_safety_step"] = False
+        if g.random() < 0.3:
+            up["growing.num_new_dirns_each_iter"] = 1
+        if g.random() < 0.5:
+            # strong L1 term with the start on its kink in some coordinates
+            cfg["reg"] = dict(type="l1", lam=float(10.0 ** g.uniform(0.3, 1.5)))
+            if cfg.get("lower") is None and not cfg.get("proj"):
+                x0 = np.array(cfg["x0"], dtype=float)
+                x0[g.random(n) < 0.5] = 0.0
+                cfg["x0"] = x0.tolist()
+    if g.random() < 0.3:
+        up["restarts.use_restarts"] = True
+        if g.random() < 0.4:
+            up["restarts.use_soft_restarts"] = False
+    gen.rare_options(up, n, p_block=0.4, reg=bool(cfg.get("reg")), proj=bool(cfg.get("proj")))
+    return cfg
+
+
 def run_insitu(case, res):
     st = res["stats"]
     contracts.install_insitu(["trsbox_geometry", "ctrsbox_pgd", "ctrsbox_sfista", "ctrsbox_geometry"])
     install_tr_step_monitor()
-    cfg = case.get("cfg") or make_situ_cfg(case["seed"], case["i"])
+    cfg = case.get("cfg") or add_situ_options(make_situ_cfg(case["seed"], case["i"]), case["seed"], case["i"])
     case["cfg"] = cfg
     ctx = engine.Ctx()
     built = gen.build(cfg, ctx)
